@@ -482,3 +482,70 @@ func (x *runner) reOffend() {
 		x.count("reoffend_newcomer_refused", 1)
 	}
 }
+
+// hitAndRun: a host the service has never dialled connects, announces the forbidden header, delivers it when asked and
+// hangs up at once - the connection is gone before the sync manager looks at the message. The host is banned all the same:
+// a newcomer of that host that dials in afterwards must not stay connected (1 h ban, so no timing enters the verdict).
+func (x *runner) hitAndRun() {
+	s := x.s
+	if !s.HitAndRun || x.w.Forbidden == nil || s.Engine != "legacy" || (s.BanDurationMs > 0 && s.BanDurationMs < 600000) {
+		return
+	}
+	at := 0
+	for _, ns := range s.Nodes {
+		if ns.Kind == "forbidden" && !ns.OrphanForbidden {
+			at = ns.ForbiddenAt
+		}
+	}
+	if at == 0 {
+		return
+	}
+	chain := append(append([]refmodel.Hdr(nil), x.w.Honest[:at-1]...), *x.w.Forbidden)
+	g, err := x.rig.AddNode("hit-and-run", chain, false)
+	if err != nil {
+		x.count("hit_and_run_not_run", 1)
+		return
+	}
+	g.Configure(func(n *Node) { n.MarkHash, n.HangUpAfterMarked = x.w.Forbidden.HashOf(), true })
+	x.rig.Refuse(g, true)
+	const ip = "127.0.0.78"
+	addr := "127.0.0.1:" + x.rig.Port
+	c1, err := g.DialService(addr, ip)
+	if err != nil || !x.waitFor(func() bool { return c1.Ready() }, 20*time.Second) || !x.quiesce("hit-and-run host connected") {
+		x.count("hit_and_run_not_run", 1)
+		return
+	}
+	if c1.AnnounceInv() != nil {
+		x.count("hit_and_run_not_run", 1)
+		return
+	}
+	if !x.waitFor(func() bool { return c1.Dead() }, 20*time.Second) {
+		x.count("hit_and_run_offender_was_never_asked", 1) // the service did not ask for the announced block: nothing was delivered
+		return
+	}
+	delivered := false
+	for _, e := range x.nodeEvents(g.Name, c1.ID) {
+		if e.Dir == "out" && e.Cmd == "headers" && strings.Contains(e.Info, "[marked]") {
+			delivered = true
+		}
+	}
+	if !delivered || !x.quiesce("after the hit-and-run offence") {
+		x.count("hit_and_run_not_run", 1)
+		return
+	}
+	c2, err := g.DialService(addr, ip)
+	if err != nil {
+		x.count("hit_and_run_newcomer_refused", 1)
+		return
+	}
+	x.waitFor(func() bool { return c2.Ready() || c2.Dead() }, 10*time.Second)
+	if !x.quiesce("newcomer of the hit-and-run host") {
+		return
+	}
+	x.count("hit_and_run_sequences_run", 1)
+	if x.stillConnected(c2) {
+		x.fail("banned-host-connected|offender-hung-up-at-once|"+x.class(), "a host delivered the forbidden header and closed its connection at once; a new connection of that host was admitted afterwards and stays open (the ban lasts 1 h)")
+		return
+	}
+	x.count("hit_and_run_newcomer_refused", 1)
+}
